@@ -150,8 +150,10 @@ def check_output_discipline(ctx, R3, R4, R5):
         pr = [a for n, a, _ in x.out if n == "putrequest"]
         if pr:
             a = pr[0]
-            pos = [t for t in a if not t.startswith(("skip_host=", "skip_accept_encoding="))]
-            kw = {t.split("=", 1)[0]: t.split("=", 1)[1] for t in a if t.startswith(("skip_host=", "skip_accept_encoding="))}
+            from ..rows import bind
+            b_ = bind(["method", "url", "skip_host", "skip_accept_encoding"], a)
+            pos = [b_.get("method"), b_.get("url")]
+            kw = {k_: b_[k_] for k_ in ("skip_host", "skip_accept_encoding") if k_ in b_}
             want = {"skip_host": x.has.get("host"), "skip_accept_encoding": x.has.get("accept-encoding")}
             got = {k: {"True": True, "False": False}.get(v) for k, v in kw.items()}
             ok = pos[:2] == ["p:method", "p:url"] and all(want[k] is not None and got.get(k) == want[k] for k in want) and key_set_ok(x.hk)
